@@ -9,6 +9,8 @@ from __future__ import annotations
 
 import importlib
 import math
+
+import numpy as np
 import random
 
 from .contracts import Alt, Bool, Const, Dct, Int, Obj, Real, Seq, Sort, Str, Tup, _Scalar, configurations
@@ -88,9 +90,16 @@ def unwrap(v):
     return v
 
 
-def wrap(v):
-    import numpy as np
+class _RowNative(np.ndarray):
+    """(1, d) ndarray standing for the witness row of a pointwise contract; kept as an array by `wrap`"""
 
+    def __new__(cls, a):
+        return np.asarray(a).view(cls)
+
+
+def wrap(v):
+    if isinstance(v, _RowNative):
+        return np.asarray(v)
     if type(v).__module__.startswith("abtem") and hasattr(v, "__dict__"):
         return Proxy(v)
 
@@ -174,6 +183,8 @@ def from_model(sort, v, spec=None, name=None):
                 return None  # opaque / stub fields: the object builder supplies the real thing
 
         return build({k: field(s, v.get(k)) for k, s in sort.fields.items()})
+    if type(sort).__name__ == "RowArr":
+        return _RowNative(np.array([[from_model(e, x) for e, x in zip(sort.elems, v)]]))  # the witness row as a (1, d) array
     build = (spec or {}).get("native_build", {}).get(name)
     if build is not None:
         return build(v)  # opaque parameters: the contract module says how a concrete value is made
@@ -278,6 +289,8 @@ def _check(spec, args):
 
         if isinstance(result, types.GeneratorType):
             result = list(result)
+        if (spec.get("options") or {}).get("pointwise") and isinstance(result, np.ndarray) and result.size == 1:
+            result = result.reshape(-1)[0].item()  # pointwise contract replayed on a single row / pixel: the one element
     except Exception as e:  # noqa: BLE001
         raised = e
     out = []
